@@ -453,6 +453,18 @@ static bool tl_sinv(const struct tl_snap *s, unsigned int maxe)
 }
 
 /* ---- symbolic pre-state ---- */
+/* Optional CONCRETE SHAPE of the main template (-DTL_SHAPE=bitmask of present slots, bit i = slot i;
+ * -DTL_NRECS=n0,n1,... records per slot): which nodes exist and how many records each holds is then
+ * fixed per job while every prefix, length, AS, max-length and source stays symbolic.  The driver
+ * enumerates all shapes of the template, so the union of the jobs covers the same state space as
+ * the symbolic-shape template, at a fraction of the cost for the nested loops of remove-by-source.
+ */
+#ifdef TL_SHAPE
+static const uint8_t tl_nrecs[] = {TL_NRECS};
+#endif
+static int tl_cur_slot = -1; /* slot being built (main template only) */
+static bool tl_shape_on;    /* set by the harness while it builds the main template */
+
 static struct trie_node *tl_mk_node(enum lrtr_ip_version ver, unsigned int maxe)
 {
 	struct trie_node *n = vm_malloc(sizeof(struct trie_node));
@@ -472,6 +484,10 @@ static struct trie_node *tl_mk_node(enum lrtr_ip_version ver, unsigned int maxe)
 	n->lchild = n->rchild = n->parent = NULL;
 	n->data = d;
 	d->len = ND(uint8_t, "node.nrec");
+#ifdef TL_SHAPE
+	if (tl_cur_slot >= 0)
+		d->len = tl_nrecs[tl_cur_slot];
+#endif
 	VASSUME(d->len >= 1 && d->len <= maxe && d->len <= 3);
 	/* constant-size request per case keeps the pointer's value set at one object */
 	if (d->len == 1)
@@ -503,11 +519,17 @@ static struct trie_node *tl_template(enum lrtr_ip_version ver, unsigned int dept
 			continue;
 		bool present = ND_BOOL("slot.present");
 
+#ifdef TL_SHAPE
+		if (tl_shape_on)
+			present = (TL_SHAPE >> i) & 1;
+#endif
 		if (i > 0 && !slot[(i - 1) / 2])
 			present = false;
 		if (!present)
 			continue;
+		tl_cur_slot = tl_shape_on ? (int)i : -1;
 		slot[i] = tl_mk_node(ver, maxe);
+		tl_cur_slot = -1;
 		if (i > 0) {
 			struct trie_node *p = slot[(i - 1) / 2];
 
